@@ -243,6 +243,24 @@ theorem pruned_closed (k : Spec) (h : PReach roots slots redirects k) :
     (∀ t, redirects.lookup k = some t → PReach roots slots redirects t) :=
   ⟨fun _ _ hs ht => .edge h hs ht, fun _ hr => .redirect h hr⟩
 
+/-- **no remaining type resolutions, anywhere in the pruned graph**: every entry that is kept is the
+pruned form of the original entry under the same key — a JS module without types dependency and
+without a type side on any dependency (`pruneSlot_js`), a wasm module without type sides, anything
+else as it was -/
+theorem pruned_kept_is_pruned (k : Spec) (sl : BSlot)
+    (h : (pruneTypes roots slots redirects (pruneFuel roots slots redirects)).slots.lookup k = some sl) :
+    ∃ sl0, slots.lookup k = some sl0 ∧ sl = pruneSlot sl0 := by
+  by_cases hr : PReach roots slots redirects k
+  · rw [pruned_entry_of_reachable roots slots redirects k hr] at h
+    cases h0 : slots.lookup k with
+    | none => rw [h0] at h; cases h
+    | some sl0 =>
+      rw [h0] at h
+      simp only [Option.map_some, Option.some.injEq] at h
+      exact ⟨sl0, rfl, h.symm⟩
+  · rw [pruned_entry_unreachable roots slots redirects k hr] at h
+    cases h
+
 /-- a type-only target is not a reason to keep anything: reachability never looks at a type side
 or a types dependency (`slotTargets` reads code sides and the source map only) -/
 theorem type_sides_irrelevant (k : Spec) (mt : Tables.MediaType) (deps deps' : List BDep)
